@@ -1197,8 +1197,12 @@ fn generate(ctx: &Ctx) {
     // (C) all six scopes, depth-capped
     run_part(ctx, "C depth 4: 3 method ids, all six scopes, 1 service", 3, universe(&[0, 2], &[A_K1, B_K1, B_K2], &[], &all_scopes, &all_rels, &[A_K1], true), Some(5));
   } else {
-    run_part(ctx, "A closure: 4 method ids, 2 relationships, 1 service", 1, universe(&[0, 1, 2, 3, 5], &[A_K1, A_K2, B_K1, B_K2], &[(A_K1, 2)], &two, &[1, 2], &[A_K1], false), None);
+    // (A) 3 method ids x 3 relationships (insertion into 4 scopes) x 1 service to closure
+    run_part(ctx, "A closure: 3 method ids, 3 relationships, 1 service", 1, universe(&[0, 1, 2, 3, 5], &[A_K1, A_K2, B_K1], &[(A_K1, 2)], &[0, 1, 2, 3], &[1, 2, 3], &[A_K1], false), None);
+    // (A2) the quick closure: 3 method ids x 2 relationships x 2 services
     run_part(ctx, "A2 closure: 3 method ids, 2 relationships, 2 services", 4, universe(&[0, 1, 2, 3, 5], &[A_K1, A_K2, B_K1], &[(A_K1, 2)], &two, &[1, 2], &[A_S1, A_K1], false), None);
+    // (A4) 4 method ids (two DIDs x two fragments), insertion into 3 scopes, references in authentication, 2 services
+    run_part(ctx, "A4 closure: 4 method ids, insertion in 3 scopes, references in 1 relationship, 2 services", 5, universe(&[0, 1, 2, 3, 5], &[A_K1, A_K2, B_K1, B_K2], &[(A_K1, 2)], &two, &[1], &[A_S1, A_K1], false), None);
     run_part(ctx, "B closure: 3 method ids with 2 bodies each, 2 relationships, 1 service, rich start document", 2, universe(&[4, 0], &[A_K1, A_K2, B_K1], &[(A_K1, 1), (A_K2, 1), (B_K1, 1)], &two, &[1, 2], &[A_K1], false), None);
     run_part(ctx, "C depth 4: 4 method ids, all six scopes, 2 services", 3, universe(&[0, 1, 2, 3, 4], &[A_K1, A_K2, B_K1, B_K2], &[(A_K1, 1)], &all_scopes, &all_rels, &[A_S1, A_K1], true), Some(5));
   }
